@@ -193,7 +193,54 @@ def regroup(src: list[Layout | None], tgt_sizes: list[Dim], norm: Any) -> list[L
             i += 1
             k = kk
             continue
-        return [None] * len(tgt_sizes)
+        return _misaligned_or_unknown(atoms, tgt_sizes, norm)
     if i != len(atoms):
         return [None] * len(tgt_sizes)
     return out
+
+
+MISALIGNED = "<misaligned"
+
+
+def is_misaligned(lay: Layout | None) -> bool:
+    return lay is not None and any(l.startswith(MISALIGNED) for l, _ in lay)
+
+
+def _monomial(d: Dim) -> tuple[tuple[str, int], ...] | None:
+    """a product of symbols with coefficient 1 -> its (symbol, exponent) tuple; otherwise None"""
+    if len(d.t) != 1:
+        return None
+    (m, c), = d.t.items()
+    if c != 1:
+        return None
+    return tuple(m)
+
+
+def _misaligned_or_unknown(atoms: list[Atom], tgt_sizes: list[Dim], norm: Any) -> list[Layout | None]:
+    """The view could not be explained as merging consecutive atoms / splitting one atom.  When every
+    atom is one plain size symbol and every target a product of such symbols with the same overall
+    product, that is a *decided* fact, not a gap of the model: for generic sizes the boundaries of
+    the target axes fall inside atoms, i.e. the view re-reads the buffer in another element order
+    (``x.repeat(B, 1, 1).view(F, B, K)``: entry (f, b) holds fold (f*B + b) mod F).  The target axes
+    then carry a ``<misaligned ..>`` placeholder (opaque to merges, visible to output contracts)."""
+    syms: list[str] = []
+    for label, size in atoms:
+        s = single_symbol(norm(size))
+        if s is None or s.startswith(("mod(", "floordiv(", "rank#", "loop_index", "rfftlen(", "pow(")) or label.startswith("<"):
+            return [None] * len(tgt_sizes)
+        syms.append(s)
+    tg = [norm(t) for t in tgt_sizes]
+    monos = [_monomial(t) for t in tg]
+    if any(m is None for m in monos):
+        return [None] * len(tgt_sizes)
+    total: dict[str, int] = {}
+    for m in monos:
+        for sname, e in m:  # type: ignore[union-attr]
+            total[sname] = total.get(sname, 0) + e
+    have: dict[str, int] = {}
+    for sname in syms:
+        have[sname] = have.get(sname, 0) + 1
+    if total != have:
+        return [None] * len(tgt_sizes)
+    desc = "[" + ", ".join(l for l, _ in atoms) + "]"
+    return [() if t.as_int() == 1 else ((f"{MISALIGNED} view of {desc}>", t),) for t in tg]
